@@ -485,6 +485,10 @@ def finish(pk):
 
 
 def main(argv=None):
+    # when started as `python -m vf.runner` this module is `__main__`; make `import vf.runner`
+    # in check modules resolve to the same module object (otherwise `vf.runner.Skip` raised by a
+    # check would be a different class than the one the worker loop catches)
+    sys.modules.setdefault("vf.runner", sys.modules[__name__])
     argv = list(sys.argv[1:] if argv is None else argv)
     if argv and argv[0] == "--worker":
         sys.exit(worker_main(argv[1:]))
